@@ -7,6 +7,7 @@ import (
 	"go/token"
 	"go/types"
 	"math/big"
+	"os"
 	"sort"
 	"strings"
 
@@ -67,9 +68,11 @@ type State struct {
 // epoch identifies the unknown heap a state started from: the entry heap, the heap after a havoc of
 // everything, or the merge of two such.
 type epoch struct {
-	id   int
-	cond *Term // merge: cond ? b : a
-	a, b *epoch
+	id        int
+	mark      int    // local allocations made before the havoc
+	cloParent *State // entry state of a function literal: the state of the enclosing function when the literal was created
+	cond      *Term  // merge: cond ? b : a
+	a, b      *epoch
 }
 
 func (s State) clone() State {
@@ -124,11 +127,16 @@ type Enc struct {
 	hints         []*Term
 	useWriterLog  bool
 	curCon        *FuncContract
+	immRegs       map[string]bool
 	entry         *tableEntry
 	freeVarVals   []Val
 	topConPkg     string
 	envAlias      func(env *evalEnv, args []Val)
 	closureHook   func(fr *Frame, x *ssa.MakeClosure, fnTerm *Term, st *State)
+	assumeScope   []int // per assumption: 0 = visible to every later obligation, k = only to the obligations of scope k
+	curScope      int
+	nscope        int
+	freshMark     map[string]int // unknown (havocked) constant -> number of local allocations made before it was introduced
 }
 
 type encHooks struct {
@@ -137,8 +145,10 @@ type encHooks struct {
 }
 
 func NewEnc(L *Loaded) *Enc {
-	return &Enc{tb: NewTB(), L: L, prog: L.prog, notes: map[string]int{}, oblSeq: map[string]int{}, regs: map[string]*regInfo{},
-		wfDone: map[int]bool{}, structT: map[string]types.Type{}, assumptionLog: map[string]bool{}, safety: true}
+	e := &Enc{tb: NewTB(), L: L, prog: L.prog, notes: map[string]int{}, oblSeq: map[string]int{}, regs: map[string]*regInfo{},
+		wfDone: map[int]bool{}, structT: map[string]types.Type{}, assumptionLog: map[string]bool{}, safety: true, freshMark: map[string]int{}}
+	e.tb.onFresh = func(name string) { e.freshMark[name] = e.nalloc }
+	return e
 }
 
 func (e *Enc) note(s string)     { e.notes[s]++ }
@@ -150,6 +160,7 @@ func (e *Enc) assume(guard, fact *Term) {
 		return
 	}
 	e.assumes = append(e.assumes, f)
+	e.assumeScope = append(e.assumeScope, e.curScope)
 }
 
 // oblige records a proof obligation `reach => cond`.
@@ -163,7 +174,7 @@ func (e *Enc) oblige(kind, label string, st *State, cond *Term, pos token.Pos, v
 	if n := e.oblSeq[name]; n > 1 {
 		name = fmt.Sprintf("%s~%d", name, n)
 	}
-	q := &Query{Name: name, Kind: kind, NAssume: len(e.assumes), Goal: goal, Vals: vals, Text: label, Label: label}
+	q := &Query{Name: name, Kind: kind, NAssume: len(e.assumes), Goal: goal, Vals: vals, Text: label, Label: label, Scope: e.curScope}
 	if pos.IsValid() {
 		p := e.prog.Fset.Position(pos)
 		q.Pos = fmt.Sprintf("%s:%d", shortPath(p.Filename), p.Line)
@@ -172,6 +183,33 @@ func (e *Enc) oblige(kind, label string, st *State, cond *Term, pos token.Pos, v
 		q.Goal = goal // trivially discharged; still recorded so that names are stable
 	}
 	e.queries = append(e.queries, q)
+	if os.Getenv("GOVC_SPLIT") != "" { // debugging aid: one extra obligation per conjunct
+		var split func(t *Term) []*Term
+		split = func(t *Term) []*Term {
+			switch {
+			case t.op == "and":
+				var out []*Term
+				for _, a := range t.args {
+					out = append(out, split(a)...)
+				}
+				return out
+			case t.op == "=>" && len(t.args) == 2:
+				var out []*Term
+				for _, c := range split(t.args[1]) {
+					out = append(out, e.tb.Imp(t.args[0], c))
+				}
+				return out
+			}
+			return []*Term{t}
+		}
+		parts := split(cond)
+		if len(parts) < 2 {
+			parts = nil
+		}
+		for i, c := range parts {
+			e.queries = append(e.queries, &Query{Name: fmt.Sprintf("%s.c%d", name, i+1), Kind: kind, NAssume: len(e.assumes), Goal: e.tb.Imp(st.reach, c), Vals: vals, Text: label, Label: label, Scope: e.curScope, Pos: q.Pos})
+		}
+	}
 	return q
 }
 
@@ -362,8 +400,106 @@ func (e *Enc) assumeWF(guard *Term, t types.Type, term *Term) {
 		if c := e.entryRefs(t, term, 0); !e.tb.isTrue(c) {
 			e.assume(e.tb.True(), c)
 		}
+	} else if refBearing(t, 0) {
+		// values read from an unknown (havocked) part of the heap refer to objects that existed when the unknown was
+		// introduced, or to objects a callee allocated: never to an object this function allocates later
+		for _, rc := range e.fromUnknown(term, 0) {
+			if c := e.unknownRefs(t, term, rc.mark, 0); !e.tb.isTrue(c) {
+				e.assume(rc.cond, c)
+			}
+		}
 	}
 	_ = guard
+}
+
+type rootCond struct {
+	cond *Term
+	mark int
+}
+
+func refBearing(t types.Type, depth int) bool {
+	if depth > 3 {
+		return false
+	}
+	switch u := t.Underlying().(type) {
+	case *types.Pointer, *types.Map, *types.Chan, *types.Slice:
+		return true
+	case *types.Struct:
+		for i := 0; i < u.NumFields(); i++ {
+			if refBearing(u.Field(i).Type(), depth+1) {
+				return true
+			}
+		}
+	}
+	return false
+}
+
+// fromUnknown lists the conditions under which the value of a read term comes unchanged out of an unknown constant
+// (a havocked register, a call result, a parameter of a function literal), looking through stores and merges.
+func (e *Enc) fromUnknown(t *Term, depth int) []rootCond {
+	tb := e.tb
+	if depth > 8 {
+		return nil
+	}
+	if len(t.args) == 0 {
+		if m, ok := e.freshMark[t.op]; ok {
+			return []rootCond{{tb.True(), m}}
+		}
+		return nil
+	}
+	and := func(c *Term, rs []rootCond) []rootCond {
+		var out []rootCond
+		for _, r := range rs {
+			if cc := tb.And(c, r.cond); !tb.isFalse(cc) {
+				out = append(out, rootCond{cc, r.mark})
+			}
+		}
+		return out
+	}
+	switch {
+	case t.op == "select":
+		a, k := t.args[0], t.args[1]
+		switch a.op {
+		case "store":
+			same := tb.Eq(k, a.args[1])
+			out := and(tb.Not(same), e.fromUnknown(tb.Select(a.args[0], k), depth+1))
+			return append(out, and(same, e.fromUnknown(a.args[2], depth+1))...)
+		case "ite":
+			out := and(a.args[0], e.fromUnknown(tb.Select(a.args[1], k), depth+1))
+			return append(out, and(tb.Not(a.args[0]), e.fromUnknown(tb.Select(a.args[2], k), depth+1))...)
+		}
+		return e.fromUnknown(a, depth+1)
+	case t.op == "ite":
+		out := and(t.args[0], e.fromUnknown(t.args[1], depth+1))
+		return append(out, and(tb.Not(t.args[0]), e.fromUnknown(t.args[2], depth+1))...)
+	case strings.HasPrefix(t.op, "elem_") && len(t.args) == 4:
+		return e.fromUnknown(tb.Select(tb.Select(t.args[0], t.args[1]), tb.Add(t.args[2], t.args[3])), depth+1)
+	case strings.Contains(t.op, ".f") || strings.HasPrefix(t.op, "s.") || strings.HasPrefix(t.op, "unbox_"):
+		return e.fromUnknown(t.args[0], depth+1)
+	}
+	return nil
+}
+
+func (e *Enc) unknownRefs(t types.Type, term *Term, mark int, depth int) *Term {
+	tb := e.tb
+	if depth > 3 {
+		return tb.True()
+	}
+	ok := func(r *Term) *Term { return tb.Or(tb.Ge(r, tb.Int(int64(-mark))), tb.Le(r, tb.Int(-100000))) }
+	switch u := t.Underlying().(type) {
+	case *types.Pointer, *types.Map, *types.Chan:
+		return ok(term)
+	case *types.Slice:
+		return ok(tb.SRef(term))
+	case *types.Struct:
+		s := e.structSortOf(t, u)
+		var cs []*Term
+		for i := 0; i < u.NumFields(); i++ {
+			cs = append(cs, e.unknownRefs(u.Field(i).Type(), tb.Field(s, i, term), mark, depth+1))
+		}
+		return tb.And(cs...)
+	}
+	return tb.True()
 }
 
 // isEntryRead: the term is a projection / select chain over an entry-heap register constant or a parameter.
@@ -440,12 +576,27 @@ func (e *Enc) regInit(ep *epoch, r *regInfo) *Term {
 	if ep.a != nil {
 		return e.tb.Ite(ep.cond, e.regInit(ep.b, r), e.regInit(ep.a, r))
 	}
-	return e.tb.Const(fmt.Sprintf("H%d_%s", ep.id, r.name), r.sort)
+	if ep.cloParent != nil && e.immutableReg(r.name) {
+		return e.regInit(ep.cloParent.ep, r)
+	}
+	c := e.tb.Const(fmt.Sprintf("H%d_%s", ep.id, r.name), r.sort)
+	if _, ok := e.freshMark[c.op]; !ok {
+		e.freshMark[c.op] = ep.mark
+		if ep.cloParent != nil {
+			// entry state of a function literal verified at its creation site: a register the enclosing function
+			// has not touched before the literal was created
+			if is, _ := arrayElemSort(r.sort); is == RefSort && r.elem && e.sortMentionsFn(r.typ, 0) {
+				fresh := e.tb.BoundVar("cr", RefSort)
+				e.assume(e.tb.True(), e.tb.Forall([]*Term{fresh}, e.tb.Imp(e.tb.Lt(fresh, e.tb.Int(0)), e.tb.Eq(e.tb.Select(c, fresh), e.tb.Select(e.regInit(ep.cloParent.ep, r), fresh)))))
+			}
+		}
+	}
+	return c
 }
 
 func (e *Enc) newEpoch() *epoch {
 	e.nepoch++
-	return &epoch{id: e.nepoch}
+	return &epoch{id: e.nepoch, mark: e.nalloc}
 }
 
 func (e *Enc) reg(st *State, r *regInfo) *Term {
@@ -659,7 +810,7 @@ func (e *Enc) fnConst(f *ssa.Function) *Term {
 	c := e.tb.Const(n, "Fn")
 	if !e.wfDone[c.id] {
 		e.wfDone[c.id] = true
-		e.assumes = append(e.assumes, e.tb.Not(e.tb.Eq(c, e.tb.Const("nilFn", "Fn"))))
+		e.assume(e.tb.True(), e.tb.Not(e.tb.Eq(c, e.tb.Const("nilFn", "Fn"))))
 	}
 	return c
 }
@@ -1510,6 +1661,82 @@ func (e *Enc) applyTypeInvs(fr *Frame, st *State, t types.Type, val *Term, mode 
 // the function elem_S(heap, ref, off, rel) (axiom: = heap[ref][off+rel]) so that quantified facts about slice elements
 // have an arithmetic-free trigger and are instantiated for indices like i+1.
 func (e *Enc) elemRead(h *Term, a *Addr) *Term {
+	// look through stores with a symbolic row index by case distinction, so that elem_S is always applied to an
+	// unmodified heap constant (quantified facts about that heap then match syntactically)
+	if a.off != nil && a.rel != nil {
+		if _, isLit := a.off.intLit(); !isLit {
+			if r := e.elemReadThrough(h, a, 0); r != nil {
+				return r
+			}
+		}
+	}
+	return e.elemReadBase(h, a)
+}
+
+func (e *Enc) elemReadThrough(h *Term, a *Addr, depth int) *Term {
+	tb := e.tb
+	if depth > 12 {
+		return nil
+	}
+	switch h.op {
+	case "store":
+		b, r2, row := h.args[0], h.args[1], h.args[2]
+		if r2 == a.ref {
+			return e.rowRead(row, b, r2, a, depth+1)
+		}
+		under := e.elemReadThrough(b, a, depth+1)
+		if under == nil {
+			return nil
+		}
+		if tb.knownDistinct(r2, a.ref) {
+			return under
+		}
+		rv := e.rowRead(row, b, r2, a, depth+1)
+		if rv == nil {
+			return nil
+		}
+		return tb.Ite(tb.Eq(a.ref, r2), rv, under)
+	case "ite":
+		x, y := e.elemReadThrough(h.args[1], a, depth+1), e.elemReadThrough(h.args[2], a, depth+1)
+		if x == nil || y == nil {
+			return nil
+		}
+		return tb.Ite(h.args[0], x, y)
+	}
+	if len(h.args) == 0 {
+		return e.elemReadBase(h, a)
+	}
+	return nil
+}
+
+// rowRead reads index a.idx of a row term that was stored at row index r2 of heap b (a.ref == r2 holds where the result is used).
+func (e *Enc) rowRead(row, b, r2 *Term, a *Addr, depth int) *Term {
+	tb := e.tb
+	if depth > 24 {
+		return nil
+	}
+	switch row.op {
+	case "store":
+		under := e.rowRead(row.args[0], b, r2, a, depth+1)
+		if under == nil {
+			return nil
+		}
+		if row.args[1] == a.idx {
+			return row.args[2]
+		}
+		if tb.knownDistinct(row.args[1], a.idx) {
+			return under
+		}
+		return tb.Ite(tb.Eq(a.idx, row.args[1]), row.args[2], under)
+	case "select":
+		if row.args[1] == r2 {
+			return e.elemReadThrough(row.args[0], a, depth+1)
+		}
+	}
+	return tb.Select(row, a.idx)
+}
+
+func (e *Enc) elemReadBase(h *Term, a *Addr) *Term {
 	tb := e.tb
 	plain := tb.Select(tb.Select(h, a.ref), a.idx)
 	if a.off == nil || a.rel == nil {
@@ -1610,4 +1837,23 @@ func (e *Enc) ghostAssign(fr *Frame, st *State, env *evalEnv, gs ghostStmt) {
 		vv = env.convertUntyped(vv, tv.typ)
 	}
 	e.setReg(st, tv.greg, e.tb.Store(e.reg(st, tv.greg), tv.gidx, vv.t))
+}
+
+// immutableReg: the register is declared `immutable T.f` in a contract file.
+func (e *Enc) immutableReg(name string) bool {
+	if e.immRegs == nil {
+		e.immRegs = map[string]bool{}
+		for _, d := range e.L.contracts.immutable {
+			env := &evalEnv{e: e, vars: map[string]SV{}, bound: map[string]SV{}, pkg: e.L.typesPkg(d.pkg)}
+			if e.top != nil {
+				if ta := e.top.TypeArgs(); len(ta) == 1 {
+					env.typeVars = map[string]types.Type{"V": ta[0]}
+				}
+			}
+			if r, err := e.anyReg(env, d.text); err == nil {
+				e.immRegs[r.name] = true
+			}
+		}
+	}
+	return e.immRegs[name]
 }
